@@ -74,6 +74,19 @@ def jobs_for(tier):
     jobs.append(BH.make_job("NR", [None], {"VF_BUDGET_DEFAULT": dev, "VF_BUDGET_TOTAL": dev, "VF_CALLMASK": full, "VF_MAX_OPS": dev,
                                            "VF_READ_ONE": 3, "VF_EXPECT_FATAL": '"scanner uses yyreject"'}, "san:buf-reject",
                             options=["reject"] + LEDGER_OPTS, cdefs=["VF_LEDGER"], san=True))
+    # %array: tokens of YYLMAX-1, YYLMAX and YYLMAX+1 characters (with and without yymore carry-over)
+    for api in ("NR", "R", "C99"):
+        for more in (0, 1):
+            ops = [H.OP_MORE]
+            act = H.ops_action(ops, api) if more else "{ }"
+            name = "YL"
+            rules = [H.Rule(R.plus(R.lit('a')), scs=[name], action=act), H.Rule(R.lit('b'), scs=[name], action=act)]
+            g = H.Group([(name, True)], rules, name, b"ab", 8, label="yylmax")
+            kn = {"VF_YYLMAX": 6, "VF_EXPECT_FATAL": '"token too large"', "VF_BUFSIZES": "0,2", "VF_READ_ONE": 1}
+            if more:
+                kn.update(VF_OPMASK=H.opmask(*ops), VF_BUDGET_DEFAULT=2, VF_BUDGET_TOTAL=2)
+            jobs.append(with_san(dict(groups=[g], api=api, options=["array", "yylmax=6"] + (["reentrant"] if api == "R" else []), cdefs=["VF_ARRAY"],
+                                      knobs=kn, tag="yylmax-%s-%d" % (api, more), driver_args=["-H", "100"])))
     # C++ class (no ledger: it allocates with new[] as well)
     a, b, nl = R.lit('a'), R.lit('b'), R.lit(10)
     g = H.Group([("S0", True)], [H.Rule(R.plus(a), scs=["S0"]), H.Rule(R.cat(a, b), scs=["S0"]), H.Rule(b, scs=["S0"], bol=True), H.Rule(nl, scs=["S0"])],
